@@ -36,3 +36,25 @@ def c20_group_lone_spike(rec, fctx):
     return bool(fctx and fctx.get("group") and fctx.get("member_count") == 1 and fctx.get("member_lost")
                 and fctx.get("op") in ("jitter_timestamps", "shuffle_ts_intervals") and fctx.get("outside_others")
                 and fctx.get("impl_equals_model") is not False)
+
+
+def c07_dropna_singleton_within_1us(rec, fctx):
+    """dropna gives a kept sample that is alone in its run the epoch [t, t + 1 us] (a zero-length epoch would vanish); when the NEXT
+    sample is rejected and lies at most 1 us later (sampling steps <= 1 us, the resolution of time supports), that epoch contains it.
+    Recognised only for dropna, only when such a singleton / successor pair exists in the input."""
+    return bool(fctx and fctx.get("op") == "dropna" and fctx.get("singleton_successor_within_1us"))
+
+
+def c08_get_empty_window_support(rec, fctx):
+    """x.get(start, end) with no sample in the window returns an object WITHOUT samples, and an object without samples has the empty
+    time support library-wide (_Base.__init__), so 'time support unchanged' fails exactly then.  Recognised only when the result is
+    empty and its support is the empty one."""
+    return bool(fctx and fctx.get("op") == "get" and fctx.get("empty_result") and fctx.get("result_support_empty"))
+
+
+def c08_one_instant_default_support(rec, fctx):
+    """A series holding a single instant (one sample, or duplicates of it) built without time_support has the EMPTY default support
+    ([t, t] has no duration); slicing - and therefore get(start, end) - rebuilds the result on that support and loses every sample.
+    Recognised only for such a series (its own support is empty) when ALL samples are lost."""
+    return bool(fctx and fctx.get("op") == "get" and fctx.get("one_instant_default_support") and fctx.get("own_support_empty")
+                and fctx.get("lost_all"))
